@@ -114,7 +114,7 @@ impl Check for C15 {
         tier.pick(std::time::Duration::from_secs(150), std::time::Duration::from_secs(1800))
     }
     fn required_counters(&self, _tier: Tier) -> Vec<&'static str> {
-        vec!["chunk:ok-honest", "chunk:substitute-refused", "data:ok-honest", "data:substitution-cases", "vault:ok-authentic", "vault:err", "vault:split-versions-delivered", "vault:forged-majority-cases", "vault:ok-highest-of-several-authentic", "vault:ok-authentic-despite-forged-versions", "realnet:round-trips-ok", "realnet:holders-serving-substituted-content"]
+        vec!["chunk:ok-honest", "chunk:substitute-refused", "data:ok-honest", "data:substitution-cases", "vault:ok-authentic", "vault:err", "vault:split-versions-delivered", "vault:forged-majority-cases", "vault:ok-highest-of-several-authentic", "vault:ok-authentic-despite-forged-versions"]
     }
     fn lane_cases(&self, tier: Tier) -> u64 {
         tier.pick(8, 64)
